@@ -5,6 +5,7 @@ import (
 	"crypto/sha256"
 	"encoding/hex"
 	"fmt"
+	"os"
 	"regexp"
 	"runtime"
 	"runtime/debug"
@@ -49,6 +50,7 @@ func (f Fault) String() string {
 // Task is a unit the scheduler chooses between: a client goroutine named by
 // the workload, or a system goroutine named by its first parked operation.
 type Task struct {
+	gid     uint64
 	Name    string
 	Client  bool
 	Done    bool
@@ -84,6 +86,13 @@ type Sim struct {
 	Prop string // property id of the running scenario
 
 	controlled atomic.Bool
+	active     atomic.Uint64 // goroutine id of the task released last
+	// YieldForeign enables "yield before an uncontended lock" for goroutines
+	// the scheduler did not release (timer-woken / spawned). Off by default:
+	// measured, it doubles the number of steps and - because such goroutines
+	// can only be named by call site + arrival counter - does not reduce the
+	// residual nondeterminism of timer ties (DESIGN.md 10.5).
+	YieldForeign bool
 	mu         sync.Mutex // protects the fields below; never held while parked
 	parkedOps  []*parked
 	tasks      map[uint64]*Task
@@ -145,7 +154,7 @@ func NewSim(t *Tape) *Sim {
 		MaxSteps:   20000,
 		Faults:     map[string]int{},
 		Probes:     map[string]int{},
-		traceCap:   400,
+		traceCap:   traceCapFromEnv(),
 		SwitchBias: 500,
 		hash:       make([]byte, 32),
 		shape:      make([]byte, 32),
@@ -166,6 +175,34 @@ func (s *Sim) Uninstall() {
 	s.PassThrough()
 	simsync.SetController(nil)
 	curSim.Store(nil)
+}
+
+// callerSite names the first frame outside the lock plumbing (function name
+// only: stable across processes, unlike addresses or goroutine ids).
+func callerSite() string {
+	var pcs [12]uintptr
+	n := runtime.Callers(3, pcs[:])
+	frames := runtime.CallersFrames(pcs[:n])
+	for {
+		f, more := frames.Next()
+		fn := f.Function
+		if fn != "" && !strings.Contains(fn, "/simsync.") && !strings.Contains(fn, "/verifsim.") && !strings.Contains(fn, "/locksutil.") && !strings.Contains(fn, "/locking.") && !strings.HasPrefix(fn, "sync.") {
+			if i := strings.LastIndex(fn, "/"); i >= 0 {
+				fn = fn[i+1:]
+			}
+			return fn
+		}
+		if !more {
+			return "?"
+		}
+	}
+}
+
+func traceCapFromEnv() int {
+	if v, err := strconv.Atoi(os.Getenv("VERIF_TRACECAP")); err == nil && v > 0 {
+		return v
+	}
+	return 400
 }
 
 func goid() uint64 {
@@ -205,10 +242,22 @@ func (s *Sim) taskFor(id uint64, kind, desc string) *Task {
 	base := "sys:" + kind + ":" + desc
 	n := s.sysCount[base]
 	s.sysCount[base] = n + 1
-	t := &Task{Name: base + "#" + strconv.Itoa(n)}
+	t := &Task{Name: base + "#" + strconv.Itoa(n), gid: id}
 	s.tasks[id] = t
 	s.byName[t.Name] = t
 	return t
+}
+
+// Yield implements simsync.Controller: a goroutine other than the one the
+// scheduler released last (woken by a timer, spawned, or woken through a
+// channel) parks before it takes even a free lock, so that its position in
+// the interleaving is decided by the tape and not by the Go runtime.
+func (s *Sim) Yield() bool {
+	if !s.YieldForeign {
+		return false
+	}
+	a := s.active.Load()
+	return a != 0 && goid() != a
 }
 
 // Enqueue implements simsync.Controller: a goroutine is about to wait for a lock.
@@ -219,8 +268,9 @@ func (s *Sim) Enqueue(w *simsync.Waiter) {
 	if w.Write() {
 		kind = "lock"
 	}
-	t := s.taskFor(id, "lock", "")
-	p := &parked{task: t, kind: "lock", desc: kind, w: w}
+	site := callerSite()
+	t := s.taskFor(id, "lock", site)
+	p := &parked{task: t, kind: "lock", desc: kind + " " + site, w: w}
 	s.parkedOps = append(s.parkedOps, p)
 	s.mu.Unlock()
 }
@@ -253,6 +303,7 @@ func (s *Sim) Go(name string, f func()) *Task {
 	s.mu.Unlock()
 	go func() {
 		id := goid()
+		t.gid = id
 		s.mu.Lock()
 		s.tasks[id] = t
 		s.mu.Unlock()
@@ -299,6 +350,7 @@ func (s *Sim) SetControlled() {
 // PassThrough leaves controlled mode and releases everything that is parked.
 func (s *Sim) PassThrough() {
 	s.controlled.Store(false)
+	s.active.Store(0)
 	s.mu.Lock()
 	ps := s.parkedOps
 	s.parkedOps = nil
@@ -485,6 +537,7 @@ func (s *Sim) Step() bool {
 	s.record(line)
 	s.mu.Unlock()
 	s.cur = p.task
+	s.active.Store(p.task.gid)
 	if p.w != nil {
 		if !p.w.Grant() {
 			panic("verifsim: grantable waiter could not be granted")
